@@ -502,7 +502,9 @@ def check_concurrent(c, rec):
 @st.composite
 def toggle_programs(draw):
     nthreads = draw(st.integers(2, 3))
-    threads = [[{"op": "q_on"}]]  # thread 0 re-enables queries (they start disabled)
+    # thread 0 makes the toggle: re-enables queries (they start disabled) or switches the window-size swap
+    toggle = draw(st.sampled_from(["q_on", "q_on", "swap_on", "swap_off"]))
+    threads = [[{"op": toggle}]]
     if draw(st.booleans()):
         threads[0].insert(0, {"op": draw(st.sampled_from(READS[:3]))})
     for _ in range(nthreads - 1):
@@ -512,7 +514,11 @@ def toggle_programs(draw):
     prof["da1"] = True
     if draw(st.integers(0, 3)):
         prof.update(winops16=[20, 10], fg=prof["fg"] or "rgb:ffff/0000/0000", xtversion=prof["xtversion"] or ["paren", "foot", "1.2"])
-    return {"threads": threads, "profile": prof, "win": [draw(st.integers(1, 60)), draw(st.integers(1, 30)), 0, 0],
+    win = [draw(st.integers(1, 60)), draw(st.integers(1, 30)), 0, 0]
+    if toggle != "q_on":
+        win[2:] = draw(st.sampled_from([[600, 400], [1200, 900], [640, 480], [0, 0]]))  # a text area for which the swap matters
+        threads[1].append({"op": "get_cell"})
+    return {"threads": threads, "profile": prof, "win": win, "toggle": toggle,
             "schedule": draw(st.lists(st.integers(0, 4), min_size=1, max_size=40))}
 
 
@@ -546,7 +552,11 @@ def check_toggle_schedule(c, rec):
         U.get_fg_bg_colors = U.cached(saved["get_fg_bg_colors"].__wrapped__)
         U.get_terminal_name_version = U.cached(saved["get_terminal_name_version"].__wrapped__)
         U.RLock = saved["RLock"]
-        TI.disable_queries()
+        toggle = c.get("toggle", "q_on")
+        if toggle == "q_on":
+            TI.disable_queries()
+        elif toggle == "swap_off":
+            TI.enable_win_size_swap()
 
         def read(k):
             if k == "get_cell":
@@ -562,6 +572,10 @@ def check_toggle_schedule(c, rec):
                     events.append((name, a["op"], "start"))
                     if a["op"] == "q_on":
                         TI.enable_queries()
+                    elif a["op"] == "swap_on":
+                        TI.enable_win_size_swap()
+                    elif a["op"] == "swap_off":
+                        TI.disable_win_size_swap()
                     else:
                         read(a["op"])
                     events.append((name, a["op"], "end"))
@@ -579,23 +593,26 @@ def check_toggle_schedule(c, rec):
                 raise Violation(f"thread {t.name} raised {type(t.exc).__name__}: {t.exc} [{what}]", {"kind": "thread_exception"})
         if not U._queries_enabled:
             raise Violation(f"queries are still disabled after enable_queries() returned [{what}]", {"kind": "not_enabled"})
-        exp = {"get_cell": R.cell_size(prof, c["win"], False, {}, True), "get_colors": R.colors(prof, True),
+        swap_final = toggle == "swap_on"
+        if U._swap_win_size != swap_final:
+            raise Violation(f"window-size swap is {U._swap_win_size} after {toggle} returned [{what}]", {"kind": "swap_state"})
+        exp = {"get_cell": R.cell_size(prof, c["win"], swap_final, {}, True), "get_colors": R.colors(prof, True),
                "get_nv": R.name_version(prof, {}, True)}
         for k in ("get_cell", "get_colors", "get_nv"):
             got = read(k)
             if got != exp[k]:
-                raise Violation(f"after enable_queries() had returned (and all threads were done) {k} still returns {got!r}, a fresh "
-                                f"computation with queries enabled gives {exp[k]!r} [{what}]\n  events={events}",
+                raise Violation(f"after {toggle} had returned (and all threads were done) {k} still returns {got!r}, a fresh "
+                                f"computation under the settings now in force gives {exp[k]!r} [{what}]\n  events={events}",
                                 {"kind": "stale_after_enable_concurrent", "read": k})
     finally:
         for k, v in saved.items():
             setattr(U, k, v)
         T.flush_all()
         T.unread_bytes()
-    i0 = events.index(("T0", "q_on", "start"))
-    i1 = events.index(("T0", "q_on", "end"))
+    i0 = events.index(("T0", toggle, "start"))
+    i1 = events.index(("T0", toggle, "end"))
     inside = any(e[0] != "T0" for e in events[i0:i1])
-    rec.label("read_inside_enable" if inside else "no_overlap")
+    rec.label("read_inside_enable" if inside else "no_overlap", f"toggle:{toggle}")
     if inside:
         rec.nontriv([events])
 
